@@ -8,7 +8,7 @@ import pipe
 
 ID = "C05"
 MODULE = "C05"
-IMPORTS = "Bytes RustInt Range CacheControl Cache CacheProofs Fixture RustStd Vary VaryProofs VaryWire VaryWireProofs"
+IMPORTS = "Bytes RustInt Range CacheControl Cache CacheProofs Fixture CacheX CacheXProofs RustStd Vary VaryProofs VaryWire VaryWireProofs"
 PROFILES = ("dev",)
 
 RULE = ("histories through the real kvarn::handle_cache in process (component vary.run, harness/src/c05.rs on top of c00pipe.rs) and over one loopback "
@@ -19,8 +19,10 @@ RULE = ("histories through the real kvarn::handle_cache in process (component va
         "bodies below and above the 50-byte floor of the compressor, with and without the default extensions (Prime uri_redirect in front); served by a "
         "counting handler that echoes its own transformed tuple (and the query on QueryMatters pages); requests GET/HEAD/POST whose rule headers are "
         "absent, present (same class / different class), empty, repeated with values of different classes, or not text (obs-text bytes), with "
-        "accept-encoding, If-Modified-Since (start + 100 s = fresh for every entry, start - 100 s = for none), and on the wire Range (satisfiable, starting "
-        "after the end, start > end, unparsable); every history = first pass in some arrival order, dump of the stored variant vector, second pass, "
+        "accept-encoding, If-Modified-Since (start + 100 s = fresh for every entry, start - 100 s = for none; with a tuple that is stored -> 304, with one "
+        "that is not -> computed), and on the wire Range (satisfiable, starting after the end, start > end, unparsable; together with a fresh "
+        "If-Modified-Since: the 304 goes out as it is); page clears of the URL as requested and of its '.'/'/' form (clear_page also clears the default "
+        "redirect target); every history = first pass in some arrival order, dump of the stored variant vector, second pass, "
         "dump; thorough: all arrival orders of every chosen request multiset of size <= 5, random orders beyond; quick: all orders of size <= 4 for a few "
         "sets, all orders of 2-4 tuples whose components run together to the same text (('ab','c') / ('a','bc') / ('abc','') ...) + random. Compared per "
         "request with the extracted model: status, vary header, decoded body, identity body, handler invocation log; per dump: "
@@ -28,7 +30,9 @@ RULE = ("histories through the real kvarn::handle_cache in process (component va
         "finite map (page, transformed tuple) -> response (pages stored under the path key, no conditional requests); (2) an independent reading of the "
         "property in Python on the implementation's output alone (every sequential history, in process and on the wire, incl. QueryMatters pages and "
         "conditional requests): a store cache key -> set of tuples; a request is answered without a handler invocation exactly when its own tuple (and "
-        "query) was computed since the last clear, with exactly one otherwise; every 200/206 body is the rendering of the request's own transformed tuple; "
+        "query) was computed since the last clear, with exactly one otherwise; a 304 is the answer exactly when the date is fresh AND the request's own "
+        "tuple was computed since the last clear (a 304 for any other tuple is a violation), whatever the Range header; every 200/206 body is the "
+        "rendering of the request's own transformed tuple; "
         "every response with a body carries exactly one vary line 'accept-encoding, range' + the rule headers of the page, 416/404/400/406 included; "
         "no dumped vector holds two variants with equal lists. distinct_nontrivial = histories that stored >= 3 variants on one page / wire histories "
         "with >= 2 different statuses")
@@ -41,31 +45,39 @@ ASSUMPTIONS = [
     "sanitize and carry no If-Modified-Since (theorem hypotheses; for QueryMatters pages and conditional requests the same is checked by the Python "
     "history oracle and by the correspondence, and follows from vector_refines_assoc_list + C03's theorems)",
     "rule sets are looked up through the model of extensions::RuleSet (Model/RuleSet.v, C14's subject; here exact paths and patterns of different "
-    "lengths); internal '/./' override URIs of Prime extensions are not modelled (the cache key would be the override path, the rules those of the client path)",
+    "lengths); internal '/./' override URIs of Prime extensions are not modelled in Model/Vary.v (cache key and vary rules are then those of the override "
+    "URI, kvarn 9992768 / 95589fa: C03's subject, Model/CacheX.v, to which vector_refines_assoc_list connects the vector model for hosts without them)",
     "HeaderMap::get(&str) for rule names longer than 64 bytes is modelled by the same normalisation as for shorter ones (not generated)",
     "content negotiation is abstract (C06): bodies are compared after decoding content-encoding with standard decoders (bodies above the 50-byte floor "
     "with accept-encoding are generated); streaming responses (a `future` in the reply) are not modelled: handle_cache skips apply_header for a stream "
-    "without announced length, send does not apply ranges to streams (apply_header's no_range branch is in the model but unreachable from serveV)",
+    "without announced length in either arm (kvarn 00528a6), never stores one, send does not apply ranges to streams (apply_header's no_range branch is "
+    "in the model but unreachable from serveV); C03/C04 cover them in Model/CacheX.v",
+    "handle_vary_missing admits a new variant like a new item (kvarn 8fe98d4, 92a9cd2: preference, method, status filter, kvarn-cache-control, size "
+    "limit; a query-dependent response only into an item keyed with the query; lifetime capped by the variant's own): modelled and covered by every "
+    "theorem (invariant, refinement of Model/CacheX.v, served_copy_is_held); the fixture's pages answer every GET/HEAD variant of a page with the same "
+    "cacheability, so the differential run of this property exercises the admitted branch only - the refused branch is exercised by C04 (pipex.run)",
     "on the wire: wire_vary_advertised assumes that the operator's Package extensions leave `vary` alone (hypothesis; the ones of Extensions::new() do, "
     "observed); what send does besides (content-length, connection, version) is C08's subject and not in Model/VaryWire.v; the answers handle_connection "
     "gives before a host's page is consulted (429 of the limiter, 409 for an unknown host) carry no vary and are outside the property (they do not "
     "depend on the path: 'when a path has vary rules'); HTTP/2 and HTTP/3 write the same head (not run)",
     "kvarn's HTTP/1 parser keeps the last of repeated header lines (HeaderMap::insert in utils/src/parse.rs: C07's subject), so handle_cache never sees a "
     "repeated rule header on an HTTP/1 connection: repeated headers are exercised in process only",
-    "If-Modified-Since: the 304 is decided on the entry's date before the variants are looked at (not_modified_before_variant_lookup; a request whose own "
-    "tuple was never computed gets it: not_modified_only_for_stored_variant_refuted, replayed on the code). That this is harmless for a client that "
-    "sends back the last-modified it was given for the same URL and the same transformed tuple is proved per entry (not_modified_same_entry_sound: the "
-    "entry holds for that tuple the variant the client was served; entry_changes_are_dated: a value never changes under its date) and over histories "
-    "(honest_not_modified_sound + served_copy_is_held) under three explicit premises: every later request happens at a time after the client's date "
-    "(a clock that moves on), the entry the 304 is decided on is not younger than that date (what the freshness test establishes up to the one-second "
-    "resolution of HTTP dates: C04's not_modified_arithmetic is the other half, not composed here), and the URL is cached under one of its two keys "
+    "If-Modified-Since: since kvarn 832d735 the 304 needs a fresh date for the entry AND the request's own variant in it "
+    "(not_modified_only_for_stored_variant; before: the date alone, not_modified_only_for_stored_variant_v0_refuted, observed on the code then). That "
+    "the 304 is the truth for a client that sends back the last-modified it was given for the same URL and the same transformed tuple is proved per "
+    "entry (not_modified_same_entry_sound: the entry holds for that tuple the variant the client was served; entry_changes_are_dated: a value never "
+    "changes under its date) and over histories (honest_not_modified_sound + served_copy_is_held) under three explicit premises: every later request "
+    "happens at a time after the client's date (a clock that moves on), the entry the 304 is decided on is not younger than that date (what the "
+    "freshness test establishes up to the one-second resolution of HTTP dates: C04's not_modified_arithmetic is the other half, not composed here), "
+    "and the URL is cached under one of its two keys "
     "only (pages that do not switch between the preferences QueryMatters and Full)",
 ]
 TRUSTED = ["modelled: src/vary.rs (Settings::add_rule's assertion, VariedResponse::{new,push_response,get,get_headers_for_request,get_by_request,first}, "
            "get_header, apply_header, apply_header_from_settings, derived Ord of Header and Ord of slices), src/lib.rs handle_cache + "
-           "handle_cache_helpers::{maybe_cache, handle_vary_missing} (as in Model/Cache.v, with the variant vector instead of an association list), "
-           "SendKind::send as far as status, body and vary go (Model/VaryWire.v: apply_to_response = Model/Range.v, the 416 replacement, resolve_package "
-           "abstract, HEAD), extensions::RuleSet::{add_mut,get} (Model/RuleSet.v), rustc 1.95 slice::binary_search_by (Model/RustStd.v), http 1.5.0 "
+           "handle_cache_helpers::{maybe_cache, get_cache, handle_vary_missing}, comprash::{server_cache_lifetime, MokaCache::insert} (as in Model/CacheX.v, "
+           "with the variant vector instead of an association list), Collection::clear_page + extensions::uri_redirect_target (Model/Cache.v "
+           "redirect_target), SendKind::send as far as status, body and vary go (Model/VaryWire.v: the body dropped after 1xx/204/304, a 304 not "
+           "range-sliced, apply_to_response = Model/Range.v, the 416 replacement, resolve_package abstract, HEAD), extensions::RuleSet::{add_mut,get} (Model/RuleSet.v), rustc 1.95 slice::binary_search_by (Model/RustStd.v), http 1.5.0 "
            "HeaderMap::get(&str) name normalisation (HEADER_CHARS), HeaderValue::to_str; handlers/transformations are the fixture menu "
            "(harness/src/c00pipe.rs = Model/Fixture.v, kind 5 in harness/src/c05.rs = Model/Vary.v compute_c05); the dump reads the field names "
            "`name`/`transformed` and string literals out of VariedResponse's Debug output (nothing else of it; an unreadable dump is skipped and reported, "
@@ -73,8 +85,9 @@ TRUSTED = ["modelled: src/vary.rs (Settings::add_rule's assertion, VariedRespons
 LEVEL_TEXT = ("Coq theorems, for all rule sets (any number of rules, names, transformations, defaults), all header values and all histories "
               "(requests, page clears, clear-all, waits/expiry): vary_served_for_equal_tuple — by an inductive invariant on the cache (every variant "
               "vector strictly sorted for Rust's Ord on [Header], built with the page's rules, every stored response computed for a request of that page "
-              "with exactly the stored transformed list) no step panics and every reply is a 304, a stored response computed for a request with the same "
-              "path and an equal transformed list, or the response computed now for this very request; variants_sorted (no two entries with equal lists); "
+              "with exactly the stored transformed list) no step panics and every reply is a stored response computed for a request with the same "
+              "path and an equal transformed list (or the bare 304 that vouches for such a stored response - never for another tuple), or the "
+              "response computed now for this very request; variants_sorted (no two entries with equal lists); "
               "lookup_refines_map / insert_refines_map / lookup_never_wrong_variant (rustc 1.95 binary_search_by on the vector = finite map; exact match "
               "even on an unsorted vector); vary_refines_map — the server's observations and handler invocations equal those of a finite-map server "
               "(page, transformed list) -> response for every history when GET/HEAD responses are cacheable under the path key without expiry; "
@@ -82,16 +95,21 @@ LEVEL_TEXT = ("Coq theorems, for all rule sets (any number of rules, names, tran
               "wire_vary_advertised for what SendKind::send passes to the connection: for every history, every sanitize verdict and every range, each "
               "response with a non-empty body — the reply, a range cut out of it, or the 416 page that replaces it — carries vary: accept-encoding, "
               "range, <rule headers>, given Package extensions that leave vary alone; send_keeps_vary (send without replacement never changes vary); "
+              "wire_not_modified_as_is (a 304 is sent as it is whatever the Range header, fix 9ae9b1a); "
               "wire_416_without_vary_v0_refuted: before the repair of send (fix 21f0154) the 416 page had no vary (fixture history reproduced on the "
               "code + for every page); stale_position_safe for the repaired handle_vary_missing (second half of a request against any "
               "invariant-satisfying cache) with stale_position_v0_refuted for the code before that repair; If-Modified-Since: "
-              "not_modified_before_variant_lookup (the 304 depends on the entry's date only), not_modified_only_for_stored_variant_refuted (a tuple never "
-              "computed gets it; on the code too), not_modified_same_entry_sound + entry_changes_are_dated (a client whose copy stems from the entry "
+              "not_modified_only_for_stored_variant (merged code, fix 832d735: with a fresh date the 304 is sent when the entry holds the variant the "
+              "request selects; a request whose own tuple is not in the entry runs the handler once and gets its own response), "
+              "not_modified_only_for_stored_variant_v0_refuted (before that fix the first half of handle_cache answered 304 on the entry's date alone: "
+              "for every cache and request, + the fixture history observed on the code then and its outcome now), not_modified_same_entry_sound + entry_changes_are_dated (a client whose copy stems from the entry "
               "the 304 is decided on holds the variant that entry has for its tuple; no value changes under its date), honest_not_modified_sound + "
               "served_copy_is_held (over all histories: a client that was served, or had computed and stored/pushed, the response f for its tuple with "
-              "date L is told 'not modified' on the strength of an entry not younger than L only while that entry holds f for its tuple; premises: "
+              "date L is told 'not modified' on the strength of an entry not younger than L only while that entry holds f for its tuple; a pushed "
+              "variant that is not admitted to the cache - fixes 8fe98d4, 92a9cd2 - leaves the cache as it was; premises: "
               "later requests happen after L, one cache key per URL); vector_refines_assoc_list + "
-              "vary_cache_transparent connect the vector model to Model/Cache.v and C03's transparency. Tied to the repo by the differential run of the "
+              "vary_cache_transparent connect the vector model to Model/CacheX.v (C03/C04's model of the merged code, all repairs on) and C03's "
+              "transparency (now without the premise that query-dependence is uniform per path). Tied to the repo by the differential run of the "
               "real kvarn::handle_cache and of kvarn::handle_connection (loopback) against the extracted models (incl. the order of the stored vector), "
               "the finite-map spec oracle and an independent Python reading of the property on the implementation's output. Not proved: the composition of "
               "honest_not_modified_sound with the one-second arithmetic of the freshness test (C04); streaming replies.")
@@ -534,13 +552,14 @@ def corpus_cases():
     cases.append(mk(cfg, [R(b"a", b"/p?x=1"), R(b"b", b"/p?x=1"), R(b"b", b"/p?x=2"), R(b"a", b"/p?x=2"), R(b"a", b"/p")] + Dq +
                     [R(b"b", b"/p?x=1"), R(b"a", b"/p?x=1"), R(b"b", b"/p?x=2"), R(b"c", b"/p"), pipe.clear_page(b"/p?x=1"), R(b"b", b"/p?x=1"),
                      R(b"b", b"/p?x=2")] + Dq, "corpus-query-matters", spec=False))
-    # If-Modified-Since: 304 for a tuple that was never computed (not_modified_only_for_stored_variant_refuted), full reply for an old date
+    # If-Modified-Since: a tuple that was never computed is computed (304 before kvarn 832d735: not_modified_only_for_stored_variant_v0_refuted),
+    # full reply for an old date, 304 for the stored tuple
     pages = [Page(b"/v", [(b"x-a", 0, b"dflt", b"x-a")])]
     cfg = config(pages)
     cases.append(mk(cfg, [R(b"a"), R(b"zz", more=[(b"if-modified-since", b"@T+100")]), D, R(b"zz"), R(b"zz", more=[(b"if-modified-since", b"@T-100")]),
                           R(b"a", more=[(b"if-modified-since", b"@T+100")], method=b"HEAD"), D], "corpus-if-modified-since", spec=False))
     # on the wire: the 416 page that send() substitutes (wire_416_without_vary_v0_refuted), a range of a variant, HEAD, an empty
-    # page and the 416 that replaces it, 404, 400, a 304 and the 416 that replaces it
+    # page and the 416 that replaces it, 404, 400, a conditional request for a tuple that is not stored, a 304 with a range (sent as it is)
     pages = [Page(b"/v", [(b"x-a", 0, b"dflt", b"x-a")]), Page(b"/e", [(b"x-a", 0, b"dflt", b"x-a")], prefix=b"", echo=[])]
     cfgw = config(pages, report=WIRE_REPORT)
     RG = lambda v: (b"range", v)
@@ -1005,28 +1024,30 @@ THEOREM_PINS = [
     ('stale_position_safe',
      "forall (hstate : Type) (compute : hstate -> request -> bool -> fat * hstate * list bytes) (cache_on ims_on : bool) (negotiate : request -> fat -> option (N * bytes)) (rules_of : bytes -> list rule) (dbg : bool) (c : vcache) (hs : hstate) (now : N) (p : parked), InvV hstate compute rules_of c -> parked_ok rules_of p -> exists (st' : vstate hstate) (rp : reply) (lg : list bytes), serveV_phase2 hstate compute cache_on ims_on negotiate rules_of dbg c hs now p = Ok (st', rp, lg, [parked_req p]) /\\ InvV hstate compute rules_of (fst st') /\\ own_reply hstate compute negotiate rules_of (parked_req p) rp /\\ snd st' = snd (fst (compute hs (parked_req p) (parked_flag p))) /\\ lg = snd (compute hs (parked_req p) (parked_flag p))"),
     ('vector_refines_assoc_list',
-     'forall (hstate : Type) (compute : hstate -> request -> bool -> fat * hstate * list bytes) (cache_on ims_on : bool) (parse_ims : bytes -> option Z) (sanitize_ok : request -> bool) (prime : request -> request) (negotiate : request -> fat -> option (N * bytes)) (rules_of : bytes -> list rule) (dbg : bool), (forall (hs : hstate) (r : request) (ok : bool), assoc (B "vary") (f_headers (fst (fst (compute hs r ok)))) = None) -> forall (ops : list op) (cV : vcache) (c : cache) (hs : hstate) (now : N), InvV hstate compute rules_of cV -> cache_rel rules_of cV c -> exists l : list (obs * list request), runV hstate compute cache_on ims_on parse_ims sanitize_ok prime negotiate rules_of dbg (cV, hs) now ops = Ok l /\\ map fst l = run hstate compute cache_on ims_on parse_ims sanitize_ok prime negotiate (vary_tuple_of rules_of) (vary_header_of rules_of) (c, hs) now ops'),
+     'forall (hstate : Type) (compute : hstate -> request -> bool -> fat * hstate * list bytes) (cache_on ims_on : bool) (parse_ims : bytes -> option Z) (sanitize_ok : request -> bool) (prime : request -> request) (negotiate : request -> fat -> option (N * bytes)) (rules_of : bytes -> list rule) (dbg : bool), (forall (hs : hstate) (r : request) (ok : bool), assoc (B "vary") (f_headers (fst (fst (compute hs r ok)))) = None) -> forall (ops : list op) (cV : vcache) (c : cachex) (hs : hstate) (now : N), InvV hstate compute rules_of cV -> cache_rel rules_of cV c -> exists l : list (obs * list request), runV hstate compute cache_on ims_on parse_ims sanitize_ok prime negotiate rules_of dbg (cV, hs) now ops = Ok l /\\ map (fun oc : obs * list request => obx_of (fst oc)) l = runX hstate (computeX hstate compute) cache_on ims_on true true true true true true status_filter_drop parse_ims sanitize_ok prime no_override (negotiateX negotiate) (vary_tupleX rules_of) (vary_headerX rules_of) redirect_target (c, hs) now (map opx_of ops)'),
     ('vary_cache_transparent',
-     'forall (hstate : Type) (compute : hstate -> request -> bool -> fat * hstate * list bytes) (ims_on : bool) (parse_ims : bytes -> option Z) (sanitize_ok : request -> bool) (prime : request -> request) (negotiate : request -> fat -> option (N * bytes)) (rules_of : bytes -> list rule) (dbg : bool), (forall (hs : hstate) (r : request) (ok : bool), assoc (B "vary") (f_headers (fst (fst (compute hs r ok)))) = None) -> forall cf : request -> bool -> fat, (forall (hs : hstate) (r : request) (ok : bool), fst (fst (compute hs r ok)) = cf r ok) -> (forall r r\' : request, get_or_head (rq_method r) = true -> get_or_head (rq_method r\') = true -> vary_tuple_of rules_of r = vary_tuple_of rules_of r\' -> rq_path r = rq_path r\' -> (qm (cf r true) = true -> path_query r = path_query r\') -> cf r true = cf r\' true) -> (forall r r\' : request, rq_path r = rq_path r\' -> qm (cf r true) = qm (cf r\' true)) -> (forall r : request, f_spref (cf r false) = SP_NONE) -> forall (ops : list op) (hs hsU : hstate) (now : N), Forall (op_no_ims ims_on prime) ops -> exists l : list (obs * list request), runV hstate compute true ims_on parse_ims sanitize_ok prime negotiate rules_of dbg ([], hs) now ops = Ok l /\\ Forall2 obs_equiv (map fst l) (run hstate compute false ims_on parse_ims sanitize_ok prime negotiate (vary_tuple_of rules_of) (vary_header_of rules_of) ([], hsU) now ops)'),
+     'forall (hstate : Type) (compute : hstate -> request -> bool -> fat * hstate * list bytes) (ims_on : bool) (parse_ims : bytes -> option Z) (sanitize_ok : request -> bool) (prime : request -> request) (negotiate : request -> fat -> option (N * bytes)) (rules_of : bytes -> list rule) (dbg : bool), (forall (hs : hstate) (r : request) (ok : bool), assoc (B "vary") (f_headers (fst (fst (compute hs r ok)))) = None) -> forall cf : request -> bool -> fat, (forall (hs : hstate) (r : request) (ok : bool), fst (fst (compute hs r ok)) = cf r ok) -> (forall r r\' : request, get_or_head (rq_method r) = true -> get_or_head (rq_method r\') = true -> vary_tuple_of rules_of r = vary_tuple_of rules_of r\' -> rq_path r = rq_path r\' -> (qm (cf r true) = true -> path_query r = path_query r\') -> cf r true = cf r\' true) -> (forall r : request, f_spref (cf r false) = SP_NONE) -> forall (ops : list op) (hs hsU : hstate) (now : N), Forall (op_no_ims ims_on prime) ops -> exists l lU : list (obs * list request), runV hstate compute true ims_on parse_ims sanitize_ok prime negotiate rules_of dbg ([], hs) now ops = Ok l /\\ runV hstate compute false ims_on parse_ims sanitize_ok prime negotiate rules_of dbg ([], hsU) now ops = Ok lU /\\ Forall2 obs_equiv (map fst l) (map fst lU)'),
     ('stale_position_v0_refuted',
      '(run_vary_v0 stale_panic_history = XL [XN 2] /\\ run_vary stale_panic_history = stale_panic_history_out) /\\ run_vary_v0 stale_unsorted_history = stale_unsorted_history_out_v0 /\\ run_vary stale_unsorted_history = stale_unsorted_history_out'),
     ('wire_vary_advertised',
      'forall (hstate : Type) (compute : hstate -> request -> bool -> fat * hstate * list bytes) (cache_on ims_on : bool) (parse_ims : bytes -> option Z) (sanitize_ok : request -> bool) (prime : request -> request) (negotiate : request -> fat -> option (N * bytes)) (rules_of : bytes -> list rule) (dbg : bool) (package : request -> list (bytes * bytes) -> list (bytes * bytes)) (err416_body : bytes) (ops : list op) (c : vcache) (hs : hstate) (now : N), InvV hstate compute rules_of c -> (forall (r : request) (hs0 : list (bytes * bytes)), assoc (B "vary") (package r hs0) = assoc (B "vary") hs0) -> exists l : list (obs * list request), runV hstate compute cache_on ims_on parse_ims sanitize_ok prime negotiate rules_of dbg (c, hs) now ops = Ok l /\\ Forall2 (fun (o : op) (oc : obs * list request) => match o with | OReq r0 => match fst oc with | ObReply rp _ => forall (san : option (option (N * N))) (w : wreply), send_v rules_of package err416_body true (prime r0) san rp = Ok w -> w_body w <> [] -> assoc (B "vary") (w_headers w) = Some (B "accept-encoding, range" ++ concat (map (fun ru : rule => B ", " ++ ru_name ru) (rules_of (rq_path (prime r0))))) | _ => True end | _ => True end) ops l'),
     ('send_keeps_vary',
-     'forall (rules_of : bytes -> list rule) (package : request -> list (bytes * bytes) -> list (bytes * bytes)) (err416_body : bytes) (fixed : bool) (r : request) (san : option (option (N * N))) (rp : reply) (w : wreply), (forall (r\' : request) (hs0 : list (bytes * bytes)), assoc (B "vary") (package r\' hs0) = assoc (B "vary") hs0) -> send_v rules_of package err416_body fixed r san rp = Ok w -> ~ (exists (rg : option (N * N)) (e : N), san = Some rg /\\ apply_range true rg (rp_status rp) (rp_body rp) = Err e) -> assoc (B "vary") (w_headers w) = assoc (B "vary") (rp_headers rp) /\\ (w_body w <> [] -> rp_body rp <> [])'),
-    ('not_modified_before_variant_lookup',
-     'forall (hstate : Type) (compute : hstate -> request -> bool -> fat * hstate * list bytes) (cache_on ims_on : bool) (parse_ims : bytes -> option Z) (sanitize_ok : request -> bool) (prime : request -> request) (negotiate : request -> fat -> option (N * bytes)) (rules_of : bytes -> list rule) (dbg : bool) (c : vcache) (hs : hstate) (now : N) (r0 : request) (k : key) (e : ventry) (c1 : vcache), cache_on = true /\\ ims_on = true /\\ vlookup (prime r0) c now = (k, Some e, c1) /\\ sanitize_ok r0 = true /\\ get_or_head (rq_method (prime r0)) = true /\\ (exists (v : bytes) (t : Z), header (B "if-modified-since") (prime r0) = Some v /\\ parse_ims v = Some t /\\ ims_fresh t (ve_created e) = true) -> serveV hstate compute cache_on ims_on parse_ims sanitize_ok prime negotiate rules_of dbg (c, hs) now r0 = Ok (c1, hs, {| rp_status := 304; rp_headers := []; rp_body := []; rp_identity := []; rp_last_modified := ims_on; rp_from_cache := true |}, [], [])'),
+     'forall (rules_of : bytes -> list rule) (package : request -> list (bytes * bytes) -> list (bytes * bytes)) (err416_body : bytes) (fixed : bool) (r : request) (san : option (option (N * N))) (rp : reply) (w : wreply), (forall (r\' : request) (hs0 : list (bytes * bytes)), assoc (B "vary") (package r\' hs0) = assoc (B "vary") hs0) -> send_v rules_of package err416_body fixed r san rp = Ok w -> ~ (exists (rg : option (N * N)) (e : N), san = Some rg /\\ (rp_status rp =? 304) = false /\\ apply_range true rg (rp_status rp) (send_body rp) = Err e) -> assoc (B "vary") (w_headers w) = assoc (B "vary") (rp_headers rp) /\\ (w_body w <> [] -> rp_body rp <> [])'),
+    ('wire_not_modified_as_is',
+     'forall (rules_of : bytes -> list rule) (package : request -> list (bytes * bytes) -> list (bytes * bytes)) (err416_body : bytes) (fixed : bool) (r : request) (san : option (option (N * N))) (rp : reply), rp_status rp = 304 -> send_v rules_of package err416_body fixed r san rp = Ok {| w_status := 304; w_headers := package r (rp_headers rp); w_body := []; w_last_modified := rp_last_modified rp |}'),
+    ('not_modified_only_for_stored_variant',
+     'forall (hstate : Type) (compute : hstate -> request -> bool -> fat * hstate * list bytes) (cache_on ims_on : bool) (parse_ims : bytes -> option Z) (sanitize_ok : request -> bool) (prime : request -> request) (negotiate : request -> fat -> option (N * bytes)) (rules_of : bytes -> list rule) (dbg : bool) (c : vcache) (hs : hstate) (now : N) (r0 : request) (k : key) (e : ventry) (c1 : vcache), InvV hstate compute rules_of c -> cache_on = true /\\ ims_on = true /\\ vlookup (prime r0) c now = (k, Some e, c1) /\\ sanitize_ok r0 = true /\\ get_or_head (rq_method (prime r0)) = true /\\ (exists (v : bytes) (t : Z), header (B "if-modified-since") (prime r0) = Some v /\\ parse_ims v = Some t /\\ ims_fresh t (ve_created e) = true) -> (forall p : fat * hcoll, vr_get_by_request (ve_var e) (prime r0) = Ok (Hit p) -> serveV hstate compute cache_on ims_on parse_ims sanitize_ok prime negotiate rules_of dbg (c, hs) now r0 = Ok (c1, hs, {| rp_status := 304; rp_headers := []; rp_body := []; rp_identity := []; rp_last_modified := ims_on; rp_from_cache := true |}, [], [])) /\\ (forall (pos : nat) (hc : hcoll), vr_get_by_request (ve_var e) (prime r0) = Ok (Miss pos hc) -> exists (st\' : vstate hstate) (rp : reply) (lg : list bytes), serveV hstate compute cache_on ims_on parse_ims sanitize_ok prime negotiate rules_of dbg (c, hs) now r0 = Ok (st\', rp, lg, [prime r0]) /\\ own_reply hstate compute negotiate rules_of (prime r0) rp)'),
     ('not_modified_same_entry_sound',
      'forall (hstate : Type) (compute : hstate -> request -> bool -> fat * hstate * list bytes) (rules_of : bytes -> list rule) (c : vcache) (k : key) (e : ventry) (r r1 : request) (p : fat * hcoll), InvV hstate compute rules_of c -> pc_find k c = Some e -> kpath k = rq_path r -> rq_path r1 = rq_path r -> own_tuple rules_of r1 = own_tuple rules_of r -> vr_get_by_request (ve_var e) r1 = Ok (Hit p) -> vr_get_by_request (ve_var e) r = Ok (Hit p) /\\ snd p = own_tuple rules_of r'),
     ('entry_changes_are_dated',
      "forall (hstate : Type) (compute : hstate -> request -> bool -> fat * hstate * list bytes) (cache_on ims_on : bool) (parse_ims : bytes -> option Z) (sanitize_ok : request -> bool) (prime : request -> request) (negotiate : request -> fat -> option (N * bytes)) (rules_of : bytes -> list rule) (dbg : bool) (st : vstate hstate) (now : N) (o : op) (st' : vstate hstate) (now' : N) (ob : obs) (calls : list request), stepV hstate compute cache_on ims_on parse_ims sanitize_ok prime negotiate rules_of dbg st now o = Ok (st', now', ob, calls) -> forall k : key, pc_find k (fst st') = pc_find k (fst st) \\/ pc_find k (fst st') = None \\/ (exists e' : ventry, pc_find k (fst st') = Some e' /\\ ve_created e' = now)"),
     ('wire_416_without_vary_v0_refuted',
      '(run_vary_wire_v0 wire416_history = wire416_out_v0 /\\ run_vary_wire wire416_history = wire416_out) /\\ (forall (rules_of : bytes -> list rule) (err416_body : list N) (r : request), err416_body <> [] -> exists (rp : reply) (w : wreply), rp_body rp <> [] /\\ send_v rules_of (fun (_ : request) (hs : list (bytes * bytes)) => hs) err416_body false r (Some (Some (100, 201))) (finishV (fun (_ : request) (_ : fat) => None) r {| f_status := 200; f_headers := []; f_body := B "page"; f_spref := SP_FULL; f_compress := true |} (own_tuple rules_of r) true true) = Ok w /\\ rp = finishV (fun (_ : request) (_ : fat) => None) r {| f_status := 200; f_headers := []; f_body := B "page"; f_spref := SP_FULL; f_compress := true |} (own_tuple rules_of r) true true /\\ w_body w <> [] /\\ assoc (B "vary") (w_headers w) = None)'),
-    ('not_modified_only_for_stored_variant_refuted',
-     'run_vary ims_history = ims_history_out'),
+    ('not_modified_only_for_stored_variant_v0_refuted',
+     '(run_vary_ims_v0 ims_history = ims_history_out_v0 /\\ run_vary ims_history = ims_history_out) /\\ (forall (hstate : Type) (cache_on ims_on : bool) (parse_ims : bytes -> option Z) (sanitize_ok : request -> bool) (prime : request -> request) (negotiate : request -> fat -> option (N * bytes)) (c : vcache) (hs : hstate) (now : N) (r0 : request) (k : key) (e : ventry) (c1 : vcache), cache_on = true /\\ ims_on = true /\\ vlookup (prime r0) c now = (k, Some e, c1) /\\ sanitize_ok r0 = true /\\ get_or_head (rq_method (prime r0)) = true /\\ (exists (v : bytes) (t : Z), header (B "if-modified-since") (prime r0) = Some v /\\ parse_ims v = Some t /\\ ims_fresh t (ve_created e) = true) -> serveV_phase1_v0 hstate cache_on ims_on parse_ims sanitize_ok prime negotiate (c, hs) now r0 = Ok (inl (c1, hs, {| rp_status := 304; rp_headers := []; rp_body := []; rp_identity := []; rp_last_modified := ims_on; rp_from_cache := true |}, [], [])))'),
     ('honest_not_modified_sound',
      "forall (hstate : Type) (compute : hstate -> request -> bool -> fat * hstate * list bytes) (cache_on ims_on : bool) (parse_ims : bytes -> option Z) (sanitize_ok : request -> bool) (prime : request -> request) (negotiate : request -> fat -> option (N * bytes)) (rules_of : bytes -> list rule) (dbg : bool) (L : N) (c2 : vcache) (hs2 : hstate) (t1 : N) (ops2 : list op) (c3 : vcache) (hs3 : hstate) (t3 : N) (r r' : request) (f : fat) (k : key) (e : ventry) (c3' : vcache), InvV hstate compute rules_of c2 -> pc_find (key_pq r) c2 = None \\/ pc_find (key_p r) c2 = None -> (exists (k0 : key) (e0 : ventry), (k0 = key_pq r \\/ k0 = key_p r) /\\ pc_find k0 c2 = Some e0 /\\ vr_get_by_request (ve_var e0) r = Ok (Hit (f, own_tuple rules_of r)) /\\ L <= ve_created e0) \\/ pc_find (key_pq r) c2 = None /\\ pc_find (key_p r) c2 = None -> later L t1 ops2 -> runV_state hstate compute cache_on ims_on parse_ims sanitize_ok prime negotiate rules_of dbg (c2, hs2) t1 ops2 = Ok (c3, hs3, t3) -> path_query r' = path_query r -> own_tuple rules_of r' = own_tuple rules_of r -> vlookup r' c3 t3 = (k, Some e, c3') -> ve_created e <= L -> vr_get_by_request (ve_var e) r' = Ok (Hit (f, own_tuple rules_of r'))"),
     ('served_copy_is_held',
-     "forall (hstate : Type) (compute : hstate -> request -> bool -> fat * hstate * list bytes) (cache_on ims_on : bool), (request -> bool) -> (request -> request) -> forall (negotiate : request -> fat -> option (N * bytes)) (rules_of : bytes -> list rule) (dbg : bool), (forall (r : request) (c : vcache) (now : N) (k : key) (e : ventry) (c1 : vcache) (f : fat), vlookup r c now = (k, Some e, c1) -> vr_get_by_request (ve_var e) r = Ok (Hit (f, own_tuple rules_of r)) -> holds_copy rules_of c1 r f (ve_created e)) /\\ (forall (c1 : vcache) (hs' : hstate) (now : N) (r : request) (f : fat) (lg : list bytes) (lm_of : fat -> bool) (cached : bool) (st' : vstate hstate) (rp : reply) (lg' : list bytes) (calls : list request), may_store cache_on (rq_method r) f = true -> new_and_cache hstate cache_on negotiate rules_of dbg c1 hs' now r f lg lm_of cached = Ok (st', rp, lg', calls) -> holds_copy rules_of (fst st') r f now /\\ rp = finishV negotiate r f (own_tuple rules_of r) (lm_of f) cached) /\\ (forall (c : vcache) (hs : hstate) (now : N) (r : request) (ok : bool) (k : key) (e : ventry) (position : nat) (headers : hcoll) (st' : vstate hstate) (rp : reply) (lg : list bytes) (calls : list request), InvV hstate compute rules_of c -> k = key_pq r \\/ k = key_p r -> pc_find k c = Some e -> vfresh e now = true -> ve_created e <= now -> vr_get_by_request (ve_var e) r = Ok (Miss position headers) -> vary_missing hstate compute cache_on ims_on negotiate rules_of dbg c hs now r ok k position headers = Ok (st', rp, lg, calls) -> holds_copy rules_of (fst st') r (fst (fst (compute hs r ok))) (ve_created e) /\\ rp = finishV negotiate r (fst (fst (compute hs r ok))) (own_tuple rules_of r) ims_on true)"),
+     "forall (hstate : Type) (compute : hstate -> request -> bool -> fat * hstate * list bytes) (cache_on ims_on : bool), (request -> bool) -> (request -> request) -> forall (negotiate : request -> fat -> option (N * bytes)) (rules_of : bytes -> list rule) (dbg : bool), (forall (r : request) (c : vcache) (now : N) (k : key) (e : ventry) (c1 : vcache) (f : fat), vlookup r c now = (k, Some e, c1) -> vr_get_by_request (ve_var e) r = Ok (Hit (f, own_tuple rules_of r)) -> holds_copy rules_of c1 r f (ve_created e)) /\\ (forall (c1 : vcache) (hs' : hstate) (now : N) (r : request) (f : fat) (lg : list bytes) (lm_of : fat -> bool) (cached : bool) (st' : vstate hstate) (rp : reply) (lg' : list bytes) (calls : list request), may_store cache_on (rq_method r) f = true -> new_and_cache hstate cache_on negotiate rules_of dbg c1 hs' now r f lg lm_of cached = Ok (st', rp, lg', calls) -> holds_copy rules_of (fst st') r f now /\\ rp = finishV negotiate r f (own_tuple rules_of r) (lm_of f) cached) /\\ (forall (c : vcache) (hs : hstate) (now : N) (r : request) (ok : bool) (k : key) (e : ventry) (position : nat) (headers : hcoll) (st' : vstate hstate) (rp : reply) (lg : list bytes) (calls : list request), InvV hstate compute rules_of c -> k = key_pq r \\/ k = key_p r -> pc_find k c = Some e -> vfresh e now = true -> ve_created e <= now -> vr_get_by_request (ve_var e) r = Ok (Miss position headers) -> vary_missing hstate compute cache_on ims_on negotiate rules_of dbg c hs now r ok k position headers = Ok (st', rp, lg, calls) -> rp = finishV negotiate r (fst (fst (compute hs r ok))) (own_tuple rules_of r) ims_on true /\\ (if variant_admitted cache_on k r (fst (fst (compute hs r ok))) then holds_copy rules_of (fst st') r (fst (fst (compute hs r ok))) (ve_created e) else fst st' = c))"),
 ]
 THEOREMS = THEOREM_PINS
